@@ -114,10 +114,45 @@ def spawn_window(ctx, camp):
             ctx.fail("interrupt-during-spawn:outcome", "unexpected outcome %r" % (outcome[0],), {"j": j})
 
 
+def sigint_disposition(ctx, when):
+    """uberjob.run leaves the process's SIGINT handling as it found it (a later Ctrl-C must still raise KeyboardInterrupt in the calling
+    thread - also in the second and every later run of the process); restores it for the checker's own sake when it does not"""
+    import signal
+    h = signal.getsignal(signal.SIGINT)
+    if h is not signal.default_int_handler:
+        ctx.fail("signal:handler-changed", "%s the process's SIGINT handler is %r instead of Python's default_int_handler that was in place before: the next Ctrl-C during a run "
+                 "would %s instead of raising KeyboardInterrupt in the calling thread" % (when, h, "kill the process outright" if h == signal.SIG_DFL else "be ignored" if h == signal.SIG_IGN else "go elsewhere"),
+                 {"when": when, "handler": repr(h)})
+        signal.signal(signal.SIGINT, signal.default_int_handler)
+        return False
+    return True
+
+
 def real_signal(ctx):
     """Real threads, real signal path: _thread.interrupt_main() from inside the k-th call."""
     import signal
     uberjob = core.use_repo()
+    # a run that completes normally, with and without a registry, from the main thread
+    import datetime as _dt
+    for with_registry in (False, True):
+        p0, r0 = uberjob.Plan(), uberjob.Registry()
+        x0 = p0.call(lambda: 1)
+        if with_registry:
+            class _M(uberjob.ValueStore):
+                v = None
+
+                def read(self):
+                    return self.v
+
+                def write(self, v):
+                    self.v = v
+
+                def get_modified_time(self):
+                    return None if self.v is None else _dt.datetime(2020, 1, 1)
+            r0.add(x0, _M())
+        uberjob.run(p0, output=x0, registry=r0 if with_registry else None, progress=None)
+        ctx.case(("sigint-disposition-after-normal-run", with_registry))
+        sigint_disposition(ctx, "after a run that completed normally (%s registry)" % ("with a" if with_registry else "no"))
     from uberjob.progress import Progress, ProgressObserver
 
     class Obs(ProgressObserver):
@@ -251,6 +286,7 @@ def real_signal(ctx):
             outcome = "interrupted-late"
         finally:
             sys.settrace(None)
+        sigint_disposition(ctx, "after run %d of the process (outcome %s)" % (trial + 3, outcome))
         ctx.case(("real-signal", ncalls, workers, k, chain))
         ctx.count("real_signal_shape", "chain" if chain else "backlog %r" % (backlog,) if backlog else "random")
         with lock:
